@@ -24,6 +24,9 @@ def setup(J):
         for sep, k in ((",", 2), (" ", 3), (",", 0)):   # k = 0: an EMPTY sub-stream (no member, so no Upstream entry)
             jobs.append(J.with_delay_fallback(J.wf("C10", "gjoin", k, 1, 2, "cmd", oracles=["nohang", "clean", "c10", "c18"], tier=tier, events_dep=False, extra=sep, id=f"C10-gjoin-k{k}-sep{ord(sep)}")))
         jobs.append(J.with_delay_fallback(J.wf("C10", "gjoin3", 2, 1, 2, "cmd", oracles=["nohang", "clean", "c10"], tier=tier, events_dep=False, extra=",", id="C10-gjoin3-k2")))
+        # IPs that exist before their files do (FileSplitter parts: their record is loaded lazily) fanned out to a tagging arm and a sibling
+        jobs.append(J.with_delay_fallback(J.wf("C10", "gsplit14", 1, 1, 2, "cmd", oracles=["nohang", "c10"], tier=tier, events_dep=False, id="C10-gsplit14-i1-m2-cmd")))
+        jobs.append(J.with_delay_fallback(J.wf("C10", "gsplit14", 1, 1, 1, "func", oracles=["nohang", "c10"], tier=tier, events_dep=False, id="C10-gsplit14-i1-m1-func")))
         # "each output file FINALIZED by a task is accompanied by <path>.audit.json" is a statement about
         # every instant: crash points of every schedule + failing sibling tasks
         for g, i, m, kind in (("g2", 1, 1, "cmd"), ("g3", 1, 1, "cmd"), ("g7", 1, 1, "func"), ("g2", 2, 2, "cmd")):
@@ -41,7 +44,7 @@ def setup(J):
         q = tier == "quick"
         o_full = ["nohang", "clean", "c10", "c04", "c11-roundtrip"]
         o_resume = ["nohang", "clean", "c10", "c04", "c11-roundtrip", "c11-unchanged"]
-        combos = [("g3", 1, 1, "cmd"), ("g3", 1, 1, "func"), ("g7", 1, 1, "cmd"), ("g14a", 1, 1, "cmd"), ("g8", 1, 1, "cmd"), ("g8", 2, 1, "cmd", "escparam"), ("g14", 1, 1, "cmd"), ("g14b", 1, 1, "cmd")]
+        combos = [("g3", 1, 1, "cmd"), ("g3", 1, 1, "func"), ("g7", 1, 1, "cmd"), ("g14a", 1, 1, "cmd"), ("g8", 1, 1, "cmd"), ("g8", 2, 1, "cmd", "escparam"), ("g14", 1, 1, "cmd"), ("g14b", 1, 1, "cmd"), ("gjoin3", 2, 2, "cmd", ",")]
         if not q:
             combos += [("g6", 1, 2, "cmd"), ("g3", 2, 2, "cmd"), ("g8", 2, 2, "cmd"), ("g14a", 2, 2, "func"), ("g6b", 1, 1, "cmd"), ("g7", 1, 2, "cmd"), ("g3", 2, 2, "func")]
         runto = {"g3": [["p"]], "g7": [["p"], ["q"]], "g14a": [["p"], ["tg"]], "g14": [["p"]], "g14b": [["d"]], "g6b": [["p"]], "g6": [["p"], ["q"], ["q", "r"]], "g8": [["p"]]}
@@ -126,6 +129,15 @@ def setup(J):
                             nj["budget"] = J.budget(tier, 20, 300)
                             nj["_fallback_delay"] = 1 if q else 2
                             jobs.append(nj)
+                            if j["scen"]["graph"] == "gjoin3":
+                                # the re-run walks the task's in-port map in whatever order the new process has
+                                mj = copy.deepcopy(nj)
+                                mj["id"] += "-mo1"
+                                mj["force_all"] = 1
+                                mj["mode"] = "delay"
+                                mj["delay"] = 1
+                                mj.pop("_fallback_delay", None)
+                                jobs.append(mj)
             return jobs
         # (b) killed at any point, cleaned up, resumed: lineage of the resumed run
         def stage_crash(ctx, prev):
